@@ -3,6 +3,7 @@ use super::structs::*;
 use crate::gen_types::*;
 use crate::report::{Report, RunCfg};
 use crate::util::*;
+use serde_json::json;
 
 const CLASSES: [&str; 4] = ["context", "application", "private", "universal"];
 const KWS: [&str; 3] = ["none", "implicit", "explicit"];
@@ -152,11 +153,18 @@ fn describe(c: &Case) -> Vec<String> {
 pub fn run(cfg: &RunCfg) -> Report {
     let mut rep = Report::new(
         "C03",
-        "[each also in one compilation together with modules of the other defaults, in two generation orders] exhaustive: module default {EXPLICIT, IMPLICIT, AUTOMATIC, none} × keyword {none, IMPLICIT, EXPLICIT} × class ×4 × position {type assignment, SEQUENCE component, SET component, CHOICE alternative, component of an anonymous nested type, SEQUENCE OF/SET OF element} × tagged kind {primitive, referenced SEQUENCE, referenced CHOICE, inline CHOICE, open type} (1440 points); automatic-tagging shapes (tag on no / each component × class × SEQUENCE/CHOICE × nested-only × after the marker) under every default; plus seeded random compositions with tags at every position. Observed: #[rasn(tag(..))] / automatic_tags via syn. Explicit marking on CHOICE/open-typed positions is not observable (rasn tags them explicitly itself) and is compared modulo that",
+        "[a sample also as instances of parameterized types] [each also in one compilation together with modules of the other defaults, in two generation orders] exhaustive: module default {EXPLICIT, IMPLICIT, AUTOMATIC, none} × keyword {none, IMPLICIT, EXPLICIT} × class ×4 × position {type assignment, SEQUENCE component, SET component, CHOICE alternative, component of an anonymous nested type, SEQUENCE OF/SET OF element} × tagged kind {primitive, referenced SEQUENCE, referenced CHOICE, inline CHOICE, open type} (1440 points); automatic-tagging shapes (tag on no / each component × class × SEQUENCE/CHOICE × nested-only × after the marker) under every default; plus seeded random compositions with tags at every position. Observed: #[rasn(tag(..))] / automatic_tags via syn. Explicit marking on CHOICE/open-typed positions is not observable (rasn tags them explicitly itself) and is compared modulo that",
     );
     if let Some(r) = &cfg.replay {
         let c = case_from_replay(r).expect("bad replay");
-        if r.get("case").unwrap_or(r).get("setting").is_some() {
+        if let Some(cm) = r.get("case").unwrap_or(r).get("cross_module").and_then(|x| x.as_array()) {
+            cross_module(&mut rep, Some((cm[0].as_str().unwrap_or(""), cm[1].as_str().unwrap_or(""))));
+            return rep;
+        }
+        let setting = r.get("case").unwrap_or(r).get("setting").and_then(|x| x.as_str()).unwrap_or("").to_string();
+        if setting.starts_with("written as the body of a parameterized type") {
+            judge_templates("c03", &[c], &mut rep, &describe);
+        } else if !setting.is_empty() {
             // the same type under every module default, in one compilation
             let all: Vec<Case> = ENVS.iter().map(|e| Case { env: e, ..c.clone() }).collect();
             judge_multi("c03", &all, &mut rep, &describe);
@@ -174,5 +182,60 @@ pub fn run(cfg: &RunCfg) -> Report {
     // the module default is the *own* module's, also when other modules are compiled in the same run
     let sample: Vec<Case> = cases.iter().step_by(if cfg.thorough { 3 } else { 9 }).cloned().collect();
     judge_multi("c03", &sample, &mut rep, &describe);
+    // ... and when the type is reached through an instance of a parameterized type
+    judge_templates("c03", &sample, &mut rep, &describe);
+    cross_module(&mut rep, None);
     rep
+}
+
+/// Components that come from another module (copied by COMPONENTS OF, or as the body of an imported parameterized
+/// type) keep the tagging of the module they are written in; the including module's default applies to its own.
+fn cross_module(rep: &mut Report, only: Option<(&str, &str)>) {
+    let envs = [("explicit", "EXPLICIT TAGS"), ("implicit", "IMPLICIT TAGS"), ("automatic", "AUTOMATIC TAGS")];
+    for (ln, lh) in envs {
+        for (un, uh) in envs {
+            if only.is_some_and(|(a, b)| a != ln || b != un) {
+                continue;
+            }
+            for lib_first in [true, false] {
+                let (lm, um) = if lib_first { ("Aa-Lib", "Zz-User") } else { ("Zz-Lib", "Aa-User") };
+                let lib = format!("{lm} DEFINITIONS {lh} ::= BEGIN\nLib ::= SEQUENCE {{ a [3] INTEGER, b [4] BOOLEAN }}\nLPar {{ T }} ::= SEQUENCE {{ p [5] INTEGER, q [6] SEQUENCE {{ r [0] NULL }}, t T }}\nEND\n");
+                let user = format!("{um} DEFINITIONS {uh} ::= BEGIN\nIMPORTS Lib, LPar FROM {lm};\nU1 ::= SEQUENCE {{ own [1] NULL, COMPONENTS OF Lib }}\nU2 ::= LPar {{ BOOLEAN }}\nU3 ::= SEQUENCE {{ mine [2] NULL }}\nEND\n");
+                rep.evaluations += 1;
+                rep.count("cross-module-copy");
+                let case = json!({"cross_module": [ln, un], "sources": [lib, user]});
+                match compile_rasn(&[lib.clone(), user.clone()]) {
+                    Outcome::Ok { generated, .. } => match crate::proj::project(&generated) {
+                        Ok(ms) => {
+                            let want_mod = um.to_lowercase().replace('-', "_");
+                            let Some(m) = ms.iter().find(|m| m.name == want_mod) else {
+                                rep.harness_errors.push(format!("module {want_mod} missing"));
+                                continue;
+                            };
+                            let explicit_of = |item: &str, field: &str| -> Option<bool> {
+                                match m.item(item).map(|i| &i.kind) {
+                                    Some(crate::proj::ItemKind::Struct { fields, .. }) => fields.iter().find(|f| f.name == field).and_then(|f| f.attrs.get("tag")).map(|t| t.contains("explicit(")),
+                                    _ => None,
+                                }
+                            };
+                            let checks = [("U1", "own", un), ("U1", "a", ln), ("U1", "b", ln), ("U2", "p", ln), ("U2", "q", ln), ("U3", "mine", un)];
+                            for (item, field, env) in checks {
+                                match explicit_of(item, field) {
+                                    Some(e) => {
+                                        if e != (env == "explicit") {
+                                            rep.unsat("", false, json!({"why": format!("{item}.{field} is written in a module with {env} tagging (library: {ln}, including module: {un}) but its tag is {}", if e { "explicit" } else { "implicit" }), "case": case}));
+                                        }
+                                    }
+                                    None => rep.unsat("", false, json!({"why": format!("{item}.{field}: no tag attribute found"), "case": case})),
+                                }
+                            }
+                        }
+                        Err(e) => rep.harness_errors.push(format!("projection failed: {e}")),
+                    },
+                    Outcome::Err(e) => rep.sample(json!({"compile_err": e, "case": case})),
+                    Outcome::Panic(p) => rep.unsat("", false, json!({"why": format!("panic: {p}"), "case": case})),
+                }
+            }
+        }
+    }
 }
